@@ -8,6 +8,9 @@
      D n m n m .. | i..         dim_addr                      -> D addr oob
      R a b c d                  get_slice_range               -> R rf rt oob
      CA s | s   CM s | s        can_add / can_mult            -> CA 0|1 / CM 0|1
+     C n..   CD n m n m ..     dim_mult + dim_copy / dim_copy -> C n m n m .. / CD n m n m ..
+     CO n..                     arr_copy (new_arr n..)        -> CO dims elems n m n m ..
+     HN s                       arr_unary (negation, scalar multiple) -> ok shape | nil
      X b h b h .. | ip..        exctab_of_list, exctab_search, exception_tab_search -> X i:h|- ..
      XN ip..                    exctab_search None            -> X - ..
      HA s | i..                 array_deref                   -> ok k | oob d | nil
@@ -78,6 +81,16 @@ let run_line line =
         | _ -> "? R")
      | "CA" -> Printf.sprintf "CA %d" (if can_add (narr_of (shape (g 0))) (narr_of (shape (g 1))) then 1 else 0)
      | "CM" -> Printf.sprintf "CM %d" (if can_mult (narr_of (shape (g 0))) (narr_of (shape (g 1))) then 1 else 0)
+     | "C" ->
+       let (dv, _) = dim_mult (zs (nums (g 0))) in
+       String.trim ("C " ^ ints (List.concat_map (fun (n, m) -> [n; m]) (dim_copy dv)))
+     | "CD" ->
+       String.trim ("CD " ^ ints (List.concat_map (fun (n, m) -> [n; m]) (dim_copy (pairs (nums (g 0))))))
+     | "CO" ->
+       let a = arr_copy (new_arr (zs (nums (g 0)))) in
+       String.trim (Printf.sprintf "CO %d %d %s" (List.length a.a_dv) (int_of_z a.a_elems)
+                      (ints (List.concat_map (fun (n, m) -> [n; m]) a.a_dv)))
+     | "HN" -> String.trim ("HN " ^ show_res (fun a -> ints a.acc_shape) (arr_unary (narr_of (shape (g 0)))))
      | "X" ->
        let t = exctab_of_list (pairs (nums (g 0))) in
        let one ip =
